@@ -20,7 +20,7 @@ def tla_bool(b):
     return 'TRUE' if b else 'FALSE'
 
 
-def core_constants(cfg, special=(), raisers=()):
+def core_constants(cfg, special=(), raisers=(), versioned=()):
     voters = cfg.get('voters', ['a', 'b', 'c'])
     nodes = voters + cfg.get('spares', []) + cfg.get('observers', [])
     return [
@@ -34,9 +34,11 @@ def core_constants(cfg, special=(), raisers=()):
         'QueueSize = %d' % cfg.get('queue', 100000),
         'SpecialCids = %s' % tla_set(sorted(special)),
         'Raisers = %s' % tla_set(sorted(raisers)),
+        'VersionedCids = %s' % tla_set(sorted(versioned)),
         'Journal = %s' % tla_bool(cfg.get('journal', False)),
         'DumpFile = %s' % tla_bool(cfg.get('dump', False)),
         'InitConnected = %s' % tla_bool(cfg.get('init_connected', False)),
+        'Conform = %s' % tla_bool(not cfg.get('versions', False)),
         'Isolated0 = %s' % tla_set(cfg.get('isolated0', [])),
         'Membership = %s' % tla_bool(cfg.get('membership', False)),
         'CompactMin = %d' % cfg.get('compact_min', 10 ** 9),
@@ -92,7 +94,7 @@ def parse_stats(out):
     return st
 
 
-_tuple_re = re.compile(r'^<<"(DRIFT|VIOL|DONE|ACTS)"')
+_tuple_re = re.compile(r'^<<\s*"(DRIFT|VIOL|DONE|ACTS)"')
 
 
 def parse_tuples(out, tags=('DRIFT', 'VIOL', 'DONE', 'ACTS')):
@@ -111,6 +113,9 @@ def parse_tuples(out, tags=('DRIFT', 'VIOL', 'DONE', 'ACTS')):
                 buf += ' ' + lines[i].strip()
                 depth = buf.count('<<') - buf.count('>>')
             if m.group(1) in res:
+                # TLC pretty-prints long tuples over several lines with extra blanks: normalise
+                buf = re.sub(r'\s+', ' ', buf)
+                buf = buf.replace('<< ', '<<').replace(' >>', '>>').replace('{ ', '{').replace(' }', '}').replace('[ ', '[').replace(' ]', ']')
                 res[m.group(1)].append(buf)
         i += 1
     return res
@@ -146,7 +151,7 @@ def validate_core_traces(traces, cfg, workdir, label='batch', timeout=1800):
     cf = os.path.join(workdir, label + '.cfg')
     with open(cf, 'w') as f:
         f.write('SPECIFICATION TSpec\nCONSTANTS\n')
-        for ln in core_constants(cfg, special_cids(traces), special_cids(traces, ('boom',))):
+        for ln in core_constants(cfg, special_cids(traces, ('add', 'rem', 'ver')), special_cids(traces, ('boom',)), special_cids(traces, ('vop',))):
             f.write('  ' + ln + '\n')
         f.write('CHECK_DEADLOCK FALSE\n')
     rc, out, wall = run_tlc('CoreTrace.tla', cf, workdir, env={'TRACE_FILE': tf}, workers=1, timeout=timeout)
